@@ -36,6 +36,16 @@ PROPS = {
         "quick": {"shards": 16, "cases": 40000, "require": {"evaluations": 1000000, "rows_satisfying": 200000, "pairs_matching": 50000, "narrowed_types": 50000}},
         "thorough": {"shards": 16, "cases": 1500000, "watchdog_s": 7200, "require": {"evaluations": 30000000}},
     },
+    "C15": {
+        "technique": "runtime monitoring: Hierarchy::get / get_key_value / Index compared with a 10-line reference model on exhaustive small scopes and random path maps; SQL queries naming a column present in both joined tables must not be accepted",
+        "level_text": "Exploration, exhaustive on a small scope: all maps of <= 3 entries over 2 symbols and depth <= 3 x all lookup paths of depth <= 4 (469 maps x 31 paths) every run; random maps of 1..12 entries with shared suffixes, nested prefixes, odd names, looked up by every suffix, extension and near-miss; ~5k generated join queries whose unqualified column is in both / one / none of the tables (ON, USING, NATURAL, CROSS; aliases).",
+        "level_note": "Trusted: the reference lookup model. At the SQL level a panic counts as a refusal here (it is C18's subject); only an accepted ambiguous or unknown name is a violation.",
+        "rule": ("evaluation = one lookup or one query; distinct non-trivial = distinct maps / distinct (tables, query) pairs. "
+                 "Lookups are classified exact / unique-suffix / ambiguous / no-candidate and all four classes must be hit."),
+        "assumptions": COMMON_ASSUME,
+        "quick": {"shards": 16, "cases": 30000, "require": {"evaluations": 1000000, "lookup:ambiguous": 100000, "lookup:unique-suffix": 100000, "lookup:exact": 100000, "sql:ambiguous": 5000, "exhaustive_maps": 469}},
+        "thorough": {"shards": 16, "cases": 1500000, "watchdog_s": 7200, "require": {"evaluations": 50000000}},
+    },
     "C11": {
         "technique": "runtime monitoring: law-checking oracle with an independent membership model over generated type pairs/values, and a naive interval-set model checked after every operation of generated histories",
         "level_text": "Exploration: millions of (A, B, v) law instances and ~60k interval-set histories per quick run are judged by an independent membership oracle / naive model; a violation comes with the witness types and value. Sound for what is observed; says nothing about pairs the generators do not produce.",
